@@ -123,6 +123,7 @@ def run(ctx):
                     ctx.ob("C08.R5", "%s:%s" % (t.cdef._module.rel, t.name), "field `%s` %s: parts disjoint and inside the %s-bit token" % (f, ranges, t.size), ok, construct="field-bits:%s.%s" % (t.name, f))
     _x86_register_fields(ctx)
     _arm_reference(ctx)
+    _rex_emission(ctx)
 
 
 # mnemonic pairs that are architecturally the same instruction (aliases)
@@ -259,3 +260,39 @@ def _arm_reference(ctx):
             ctx.ob("C08.R7", site, "operand `%s` of %s is encoded in bits [%d:%d)" % (op, cls.name, want[0], want[1]), bool(got) and all(g == want for g in got), construct="arm-field:%s.%s" % (cls.name, op),
                    detail="stored to %s" % (got or "no bit field"))
     ctx.need(n_cls >= 12, "ARM hand-written encoders not found (%d)" % n_cls)
+
+
+def _rex_emission(ctx):
+    """R8: the REX prefix carries four payload bits (W, R, X, B); an encoder that omits the prefix when it is "not
+    needed" must look at all four"""
+    import re
+    ctx.rule("C08.R8", "x86-64: an encoder that emits the REX prefix conditionally decides on all four payload bits W, R, X and B (X extends the SIB index register)", floor=1)
+    n = 0
+    for rel in ("ppci/arch/x86_64/instructions.py", "ppci/arch/x86_64/sse2_instructions.py", "ppci/arch/x86_64/x87_instructions.py"):
+        mod = ctx.project.module(rel)
+        for cls in [c for c in ast.walk(mod.tree) if isinstance(c, ast.ClassDef)]:
+            toks = [st.value for st in cls.body if isinstance(st, ast.Assign) and norm(st.targets[0]) == "tokens" and isinstance(st.value, ast.List)]
+            if not toks:
+                continue
+            names = [norm(e) for e in toks[0].elts]
+            if "RexToken" not in names:
+                continue
+            ri = names.index("RexToken")
+            for fn in [f for f in cls.body if isinstance(f, ast.FunctionDef) and f.name == "encode"]:
+                env = {}
+                for st in ast.walk(fn):
+                    if isinstance(st, ast.Assign) and isinstance(st.targets[0], ast.Name) and norm(st.value) == "tokens[%d]" % ri:
+                        env[st.targets[0].id] = "tokens[%d]" % ri
+                for i in [x for x in ast.walk(fn) if isinstance(x, ast.If)]:
+                    emits = any(isinstance(c, ast.Call) and norm(c.func) in ("tokens[%d].encode" % ri,) + tuple(k + ".encode" for k in env) for b in i.body for c in ast.walk(b))
+                    if not emits:
+                        continue
+                    n += 1
+                    t = norm(i.test)
+                    for k in env:
+                        t = re.sub(r"\b%s\b" % k, "tokens[%d]" % ri, t)
+                    whole = ("tokens[%d][0:4]" % ri) in t or re.search(r"tokens\[%d\]\s*(\.value)?\s*(!=|>|&)" % ri, t) is not None
+                    bits = {b for b in "wrxb" if ("tokens[%d].%s" % (ri, b)) in t}
+                    ctx.ob("C08.R8", "%s:%s.encode" % (rel, cls.name), "the REX prefix is emitted whenever any of W, R, X, B is set", whole or bits == set("wrxb"), construct="rex-all-bits:%s" % cls.name, node=i,
+                           detail="test `%s` looks at %s" % (norm(i.test), "the whole low nibble" if whole else sorted(bits)))
+    ctx.need(n >= 1, "conditional REX emission not found")
